@@ -29,6 +29,7 @@ def showSummary (s : Summary Nat) : String :=
     "params=" ++ showNatList s.params,
     "ctor=" ++ commaOr (s.ctor.map showPStatus),
     "raise=" ++ showBool s.mayRaise,
+    "validates=" ++ showBool s.validates,
     "varargs=" ++ showBool s.varargs,
     "fresh=" ++ showBool s.freshUnfitted,
     "get=" ++ showImplNat s.getImpl,
@@ -61,10 +62,11 @@ def field? (name : String) (tok : String) : Option String :=
 
 def parseSummary? (toks : List String) : Option (Summary Nat) :=
   match toks with
-  | [p, c, r, va, fr, g, st, gu, fw, fu, fs, fa, h] => do
+  | [p, c, r, vl, va, fr, g, st, gu, fw, fu, fs, fa, h] => do
     let params ← (field? "params" p).bind parseNatList?
     let ctor ← (field? "ctor" c).bind (parseListWith? parsePStatus?)
     let mayRaise ← (field? "raise" r).bind parseBool?
+    let validates ← (field? "validates" vl).bind parseBool?
     let varargs ← (field? "varargs" va).bind parseBool?
     let fresh ← (field? "fresh" fr).bind parseBool?
     let getImpl ← (field? "get" g).bind parseImplNat?
@@ -75,7 +77,7 @@ def parseSummary? (toks : List String) : Option (Summary Nat) :=
     let fitSets ← (field? "fitset" fs).bind parseBool?
     let fitAbs ← (field? "fitabs" fa).bind parseBool?
     let hooks ← (field? "hooks" h).bind parseBool?
-    pure { params := params, ctor := ctor, mayRaise := mayRaise, varargs := varargs, freshUnfitted := fresh,
+    pure { params := params, ctor := ctor, mayRaise := mayRaise, validates := validates, varargs := varargs, freshUnfitted := fresh,
            getImpl := getImpl, setImpl := setImpl, guards := guards, fitWrites := fitWrites,
            fitUnknown := fitUnknown, fitSetsFitted := fitSets, fitAbstract := fitAbs, hooks := hooks }
   | _ => none
@@ -264,12 +266,16 @@ def runOp (t : V) (op : String) : Option (V × String) :=
     | _ => none
   | _ => none
 
+/-- a failed `set_params` leaves the real object half-updated (sklearn applies the valid keys before it
+meets the invalid one), so a history ends at the first failed `set` -/
 def runSeq (t : V) : List String → Option (List String)
   | [] => some []
   | op :: ops =>
     match runOp t op with
     | none => none
-    | some (t', out) => (runSeq t' ops).map (out :: ·)
+    | some (t', out) =>
+      if op.startsWith "set:" && out.startsWith "E:" then some [out]
+      else (runSeq t' ops).map (out :: ·)
 
 def handle (toks : List String) : String :=
   match toks with
